@@ -160,6 +160,37 @@ class Ctx:
         return sum(1 for o in self.obs if o["rule"] == rule)
 
 
+class AliasCtx:
+    """runs another property's rules under this property: obligations of the rules listed in `mapping` are recorded under the
+    mapped rule id (key prefixed with the source rule), everything else is dropped."""
+
+    def __init__(self, ctx, mapping):
+        self.ctx, self.mapping = ctx, mapping
+        self.db, self.prov = ctx.db, ctx.prov
+        self.repo_root = getattr(ctx, "repo_root", None)
+        self.facts_dir = getattr(ctx, "facts_dir", None)
+        self.wat_pass = True      # (an aliased C18 pass never re-extracts)
+        self.obs = []
+        self.floors = {}
+
+    def ob(self, rule, key, ok, why, **kw):
+        if rule in self.mapping:
+            return self.ctx.ob(self.mapping[rule], "%s/%s" % (rule, key), ok, why, **kw)
+
+    def touch(self, f):
+        self.ctx.touch(f)
+
+    def floor(self, rule, n):
+        pass
+
+    def lost(self, rule, what):
+        if rule in self.mapping:
+            self.ctx.lost(self.mapping[rule], what)
+
+    def count(self, rule):
+        return 0
+
+
 def load_known():
     p = os.path.join(VERIF, "known_findings.json")
     if not os.path.exists(p):
